@@ -242,6 +242,15 @@ def check_hierarchy(ctx, facts):
         return wh
     nstores = 0
     for c in wh:
+        # class-level defaults of the state attributes are read by every instance that has not stored yet: same obligation
+        for st in c.node.body:
+            if isinstance(st, ast.Assign) and any(isinstance(t, ast.Name) and t.id in STATE for t in st.targets):
+                nm = [t.id for t in st.targets if isinstance(t, ast.Name) and t.id in STATE][0]
+                if isinstance(st.value, ast.Constant) and (st.value.value == 0 or st.value.value is None) and not isinstance(st.value.value, bool):
+                    ctx.ok('C06.a', '%s:class-level:%s' % (c.name, nm), 'class-level default is 0 / None')
+                else:
+                    ctx.violation('C06.a', '%s:class-level:%s' % (c.name, nm), 'class-level default `%s` of a wire state attribute is not inside [0, 2^width): it becomes the value of the wire '
+                                  'when that state is copied (value := next)' % norm(st), '%s:%s' % (c.rel, c.name), witness=dict(default=norm(st.value)))
         for mname, m in c.methods.items():
             alg = MaskAlg(facts, c, m)
             for n in ast.walk(m):
@@ -256,6 +265,17 @@ def check_hierarchy(ctx, facts):
                     targets, val = [n.target], n.value
                 for t in targets:
                     for x in ([t] if not isinstance(t, ast.Tuple) else t.elts):
+                        if isinstance(x, ast.Attribute) and isinstance(x.value, ast.Name) and x.value.id != 'self' and x.attr in STATE:
+                            # a store to the state of ANOTHER wire object from inside the wire classes (e.g. `w.next = ...` in a class-level loop): same obligation
+                            nstores += 1
+                            key = '%s.%s:%s.%s' % (c.name, mname, x.value.id, x.attr)
+                            where = '%s:%s.%s' % (c.rel, c.name, mname)
+                            if isinstance(val, ast.Constant) and val.value == 0 and not isinstance(val.value, bool):
+                                ctx.ok('C06.a', key, 'store of the constant 0')
+                            else:
+                                ctx.violation('C06.a', key, 'store `%s` writes the state of a wire without reducing the value modulo 2^width (a later copy value := next makes it observable)'
+                                              % norm(n), where, witness=dict(stored_expression=norm(val), example='the stored value is outside [0, 2^width) for a 1-bit wire'))
+                            continue
                         if not (isinstance(x, ast.Attribute) and isinstance(x.value, ast.Name)
                                 and x.value.id == 'self'):
                             continue
